@@ -37,7 +37,7 @@ MEMO_DECORATORS = ("lru_cache", "cache")
 
 # entry points whose behaviour each property talks about
 ENTRIES: Dict[str, List[Tuple[str, str]]] = {
-    "C01": [("common", "BpSeq.*"), ("common", "DotBracket.*")],
+    "C01": [("common", "BpSeq.dot_bracket"), ("common", "BpSeq.convert_to_dot_bracket"), ("common", "BpSeq.fcfs"), ("common", "BpSeq.all_dot_brackets"), ("common", "BpSeq.from_dotbracket"), ("common", "BpSeq.from_string"), ("common", "DotBracket.*")],
     "C02": [("common", "BpSeq.convert_to_dot_bracket"), ("common", "BpSeq.dot_bracket")],
     "C03": [("annotator", "find_pairs")],
     "C04": [("annotator", "find_stackings")],
